@@ -236,4 +236,43 @@ MUTANTS = [
            "R1.chain-order"),
     Mutant("downcast-lower", COMPRESS, "        if np.all(array >= np.iinfo(dtype).min) and np.all(\n            array <= np.iinfo(dtype).max\n        ):",
            "        if np.all(\n            array <= np.iinfo(dtype).max\n        ):", "R3.downcast-bounds"),
+    # ---- one seeded fault per remaining rule ----
+    Mutant("delta-decode-dropped", ENC,
+           "    def decode(self, data):\n        output = np.cumsum(data, dtype=self.src_type.to_dtype())\n        output += self.origin\n        return output\n",
+           "", "R1.encode-decode-defined", qualname="DeltaEncoding"),
+    Mutant("camel-to-snake-no-lower", ENC, '    return CAMEL_CASE_PATTERN.sub("_", attribute_name).lower()', '    return CAMEL_CASE_PATTERN.sub("_", attribute_name)',
+           "R1.name-conversion"),
+    Mutant("snake-to-camel-first-kept", ENC, "    return attribute_name[0].lower() + attribute_name[1:]", "    return attribute_name",
+           "R1.name-conversion"),
+    Mutant("param-num-steps-renamed", ENC, "    num_steps: ...\n", "    n_steps: ...\n", "R1.parameter-names", qualname="IntervalQuantizationEncoding"),
+    Mutant("reverse-table-not-reversed", ENC, "_DTYPE_TO_TYPE_CODE = {val: key for key, val in _TYPE_CODE_TO_DTYPE.items()}",
+           "_DTYPE_TO_TYPE_CODE = {key: val for key, val in _TYPE_CODE_TO_DTYPE.items()}", "R1.typecode-inverse"),
+    Mutant("typecode-uint32-no-dtype", ENC, '    TypeCode.UINT32: "<u4",\n', "", "R1.typecode-total"),
+    Mutant("typecode-float64-value", ENC, "    FLOAT64 = 33\n", "    FLOAT64 = 34\n", "R1.typecode-values"),
+    Mutant("compress-fallback-float32", COMPRESS,
+           "            # non-finite or too large values can only be kept as float\n            return bcif.BinaryCIFData(array, [ByteArrayEncoding()])",
+           "            # non-finite or too large values can only be kept as float\n            return bcif.BinaryCIFData(array, [ByteArrayEncoding(np.float32)])",
+           "R3.fallback-lossless"),
+    Mutant("compress-other-factor", COMPRESS, "        to_integer_encoding = FixedPointEncoding(factor)", "        to_integer_encoding = FixedPointEncoding(10 * factor)",
+           "R3.same-factor"),
+    Mutant("decimals-absolute-error", COMPRESS, "        if np.all(error < tol * np.abs(array)):", "        if np.all(error < tol):", "R3.tolerance"),
+    Mutant("safecast-float-allowed", ENC,
+           '        if not np.issubdtype(array.dtype, np.integer):\n            raise ValueError("Cannot cast floating point to integer")\n', "",
+           "R4.safe-cast-float"),
+    Mutant("safecast-same-width-shortcut", ENC,
+           "        dtype_info = np.iinfo(dtype)\n        if np.any(array < dtype_info.min)",
+           "        if array.dtype.itemsize <= dtype.itemsize:\n            return array.astype(dtype)\n        dtype_info = np.iinfo(dtype)\n        if np.any(array < dtype_info.min)",
+           "R4.safe-cast-order"),
+    Mutant("bcif-data-encoding-not-kept", BCIF, 'return BinaryCIFData(decode_stepwise(content["data"], encoding), encoding)',
+           'return BinaryCIFData(decode_stepwise(content["data"], encoding))', "R5.codec"),
+    Mutant("bcif-encodings-written-reversed", BCIF, "serialized_encoding = [enc.serialize() for enc in self._encoding]",
+           "serialized_encoding = [enc.serialize() for enc in reversed(self._encoding)]", "R5.codec-order"),
+    Mutant("bcif-file-key-encoder", BCIF, 'serialized_content["encoder"] = "biotite"', 'serialized_content["encoding"] = "biotite"', "R5.file-keys"),
+    Mutant("bcif-rowcount-key", BCIF, '            content["rowCount"],\n', '            content["row_count"],\n', "R5.keys", qualname="BinaryCIFCategory"),
+    Mutant("bcif-mask-required", BCIF,
+           '            BinaryCIFData.deserialize(content["mask"])\n            if content["mask"] is not None\n            else None,\n',
+           '            BinaryCIFData.deserialize(content["mask"]),\n', "R5.mask-optional"),
+    Mutant("bcif-read-skips-deserialize", BCIF,
+           "            return BinaryCIFFile.deserialize(\n                msgpack.unpackb(file.read(), use_list=True, raw=False)",
+           "            return BinaryCIFFile(\n                msgpack.unpackb(file.read(), use_list=True, raw=False)", "R5.read-deserialises"),
 ]
